@@ -257,10 +257,10 @@ func (e *env) restore(chainChanged, poolChanged bool) string {
 
 type pmCase struct {
 	pm        *network.ProtocolManager
-	sig       chan int       // step signals of the manager's loops, forwarded
-	loopDone  chan struct{}  // the block loop goroutine has ended
-	loopPanic *panicInfo     // ... by a panic
-	aborted   bool           // the watchdog gave up on the case while waiting
+	sig       chan int      // step signals of the manager's loops, forwarded
+	loopDone  chan struct{} // the block loop goroutine has ended
+	loopPanic *panicInfo    // ... by a panic
+	aborted   bool          // the watchdog gave up on the case while waiting
 }
 
 func (e *env) newPM() *pmCase {
